@@ -296,6 +296,14 @@ def generate(tier, rng):
         h = hgen.random_history({'dim': 1, 'n': 4 + j % 3, 'p': 1 + j % 3, 'disparity': d, 'truncate': bool(j % 5 == 0)}, 3 + j % 2, rng, multi_level=True)
         if any(len(step) > 1 for step in h['history']):
             yield 'matrix', {'spec': h, 'form': forms[j % 2], 'geo': geos1[j % 3]}
+    # coarse knot vectors with repeated interior knots (a cell then carries functions first..first+p with first != cell index)
+    for j in range(10 if quick else 60):
+        dim = 1 + j % 2
+        p = 2 + j % 2
+        base = {'dim': dim, 'n': 3 if dim == 1 else 2, 'p': p if dim == 1 else [p, 2], 'mult': (2 + (j % 3 == 0)) if dim == 1 else [2, 1 + j % 2],
+                'disparity': ['inf', 1][j % 2], 'truncate': bool(j % 3 == 1)}
+        h = hgen.random_history(base, 2, rng, multi_level=False)
+        yield 'matrix', {'spec': h, 'form': forms[j % 2], 'geo': (geos1 if dim == 1 else geos2)[j % 3]}
     # persistent objects: histories that return to coarser levels after finer ones (no new level is added by such a step)
     for j in range(8 if quick else 40):
         dim = 1 + j % 2
